@@ -77,6 +77,7 @@ class Ctx:
         self.max_enum = max_enum
         self.loop_bound = loop_bound
         self.fresh_n = 0
+        self.model_cache = None
         self.concrete: dict[str, Any] | None = None  # concrete-mode valuation
         self.notes: list[str] = []
 
@@ -97,6 +98,13 @@ class Ctx:
     def add(self, c) -> None:
         self.pc.append(c)
         self.solver.add(c)
+        m = self.model_cache
+        if m is not None:
+            try:
+                if not z3.is_true(m.eval(c, model_completion=True)):
+                    self.model_cache = None
+            except z3.Z3Exception:
+                self.model_cache = None
 
     def fresh(self, base: str) -> str:
         self.fresh_n += 1
@@ -118,24 +126,55 @@ class Ctx:
             self.decisions.append(choice)
             self.add(cond if choice else z3.Not(cond))
             return choice
-        rt = self._check(cond)
-        rf = self._check(z3.Not(cond))
+        # one of the two sides is usually decided by the cached model of the path condition
+        m = self._model()
+        rt = rf = None
+        mt = mf = None
+        if m is not None:
+            v = m.eval(cond, model_completion=True)
+            if z3.is_true(v):
+                rt, mt = "sat", m
+            elif z3.is_false(v):
+                rf, mf = "sat", m
+        if rt is None:
+            rt = self._check(cond)
+            if rt == "sat":
+                mt = self.solver.model()
+        if rf is None:
+            rf = self._check(z3.Not(cond))
+            if rf == "sat":
+                mf = self.solver.model()
         if rt == "unknown" or rf == "unknown":
             raise SolverUnknown("feasibility check returned unknown")
         if rt == "sat" and rf == "sat":
             self.alternatives.append(self.decisions + [False])
             self.decisions.append(True)
             self.add(cond)
+            self.model_cache = mt
             return True
         if rt == "sat":
             self.decisions.append(True)
             self.add(cond)
+            self.model_cache = mt
             return True
         if rf == "sat":
             self.decisions.append(False)
             self.add(z3.Not(cond))
+            self.model_cache = mf
             return False
         raise PathInfeasible()
+
+    def _model(self):
+        """A model of the current path condition (cached while it stays valid)."""
+        if self.model_cache is not None:
+            return self.model_cache
+        r = self._check()
+        if r == "sat":
+            self.model_cache = self.solver.model()
+            return self.model_cache
+        if r == "unsat":
+            raise PathInfeasible()
+        return None
 
     def assume(self, cond) -> None:
         cond = z3.simplify(cond) if z3.is_expr(cond) else z3.BoolVal(bool(cond))
@@ -166,12 +205,10 @@ class Ctx:
                 if choice:
                     return pv
                 continue
-            r = self._check()
-            if r != "sat":
-                if r == "unknown":
-                    raise SolverUnknown("concretize")
-                raise PathInfeasible()
-            v = self.solver.model().eval(term, model_completion=True)
+            m = self._model()
+            if m is None:
+                raise SolverUnknown("concretize")
+            v = m.eval(term, model_completion=True)
             if not is_val(v):
                 raise Unsupported(f"cannot concretize {term}")
             pv = conv(v)
